@@ -234,14 +234,23 @@ type sessOpts struct {
 	TokensObs bool // log token sequences and symbol trees (shape parts of C13/C14)
 }
 
-func tokensEvent(ev Event, o Outcome) {
+func tokensEvent(ev Event, o Outcome, src []byte) {
 	toks, ok := o.Value.([]lang.SemanticToken)
 	if !ok {
 		return
 	}
 	tk := make([][]interface{}, 0, len(toks))
 	for _, t := range toks {
-		tk = append(tk, []interface{}{string(t.Type), t.Range.Start.Byte, t.Range.End.Byte})
+		c := ""
+		if t.Range.End.Byte <= t.Range.Start.Byte && t.Range.Start.Byte >= 0 && t.Range.Start.Byte <= len(src) {
+			// context of an empty token: the two bytes that follow it
+			e := t.Range.Start.Byte + 2
+			if e > len(src) {
+				e = len(src)
+			}
+			c = string(src[t.Range.Start.Byte:e])
+		}
+		tk = append(tk, []interface{}{string(t.Type), t.Range.Start.Byte, t.Range.End.Byte, c})
 	}
 	ev["tk"] = tk
 }
@@ -330,7 +339,7 @@ func runState(tw *traceWriter, w *watch, env *Env, path string, st StateSpec, so
 		ev := a.Event(path, st.File)
 		if so.TokensObs {
 			if kind == "tokens" {
-				tokensEvent(ev, o)
+				tokensEvent(ev, o, st.Src)
 			}
 			if kind == "symbols" {
 				symbolsEvent(ev, o)
